@@ -526,6 +526,11 @@ pub fn run_path<S: Sut>(cfg: &Cfg, path: &PathRec<Post>, record: bool) -> (PathR
         let mut got = vec![];
         loop {
             w.get(false).await;
+            // (nothing is running any more that a health check could have to wait for: a get that is
+            //  merely slow - a busy machine - is given the long limit, the verdict does not depend on timing)
+            if w.pending.is_some() {
+                w.get(true).await;
+            }
             if !w.last_get.starts_with("ok") || got.len() > cfg.max_size + 2 {
                 break;
             }
